@@ -110,6 +110,7 @@ fn generate(rng: &mut Rng) -> ConnScenario {
         client,
         wplan: vec![],
         cap_ns: secs(1200),
+        prelude: vec![],
     }
 }
 
